@@ -17,7 +17,7 @@ TIERS = {
     "quick": dict(sample=120, sim_num=60, sim_depth=4),
     "thorough": dict(sample=1500, sim_num=180, sim_depth=4),
 }
-CUT_KINDS = ["persist", "delayed", "delayed_bare", "delayed_prefix", "legacy", "optimize_legacy"]
+CUT_KINDS = ["persist", "delayed", "delayed_bare", "delayed_prefix", "delayed_noopt", "legacy", "optimize_legacy"]
 
 
 def build_over(q, cut_node, coll, env):
@@ -39,6 +39,8 @@ def do_cut(h, kind):
         return dx.from_legacy_dataframe(h.to_legacy_dataframe())
     if kind == "optimize_legacy":
         return dx.from_legacy_dataframe(h.optimize().to_legacy_dataframe())
+    if kind == "delayed_noopt":        # the non-default to_delayed(optimize_graph=False): same partitions, unoptimized graph
+        return dx.from_delayed(h.to_delayed(optimize_graph=False), meta=h._meta)
     ds = h.to_delayed()
     if kind == "delayed":
         kw = {"meta": h._meta}
@@ -119,7 +121,7 @@ def _replay(case, q, sc, env):
                 ln.update(div_known_uncut=bool(ku), div_known_cut=bool(kc),
                           div_uncut=[walk._enc_label(d) for d in du] if ku else [], div_cut=[walk._enc_label(d) for d in dc] if kc else [],
                           # from_delayed without divisions=, and the persisted / legacy image of an OPTIMIZED plan, may lose divisions
-                          div_loss_documented=kind in ("delayed_bare", "delayed_prefix") or not (h.known_divisions))
+                          div_loss_documented=kind in ("delayed_bare", "delayed_prefix", "delayed_noopt") or not (h.known_divisions))
                 ln["cut"] = res
                 if not res["ok"]:
                     ln["msg"] = "compute of the cut query: " + res.get("err", "") + ": " + res.get("msg", "")[:150]
